@@ -63,6 +63,7 @@ def run(ctx):
     asmcheck.run_suite(ctx, "expression-results-out-of-range", cases)
     # a label's address on every width boundary, in every fixed-width operand position (a value too wide for the field is rejected, not cut)
     asmcheck.run_suite(ctx, "label-boundary", c04.label_boundary_cases(rnd, 20000 if thorough else 1000))
+    asmcheck.run_suite(ctx, "shared-label-mixed-width", c04.shared_label_cases(rnd, 10000 if thorough else 800))
     # (b) code -> spec: single-edit mutations of valid operand strings (no abstract form: decode clauses only)
     n = 400000 if thorough else 30000
     cases = []
